@@ -1,0 +1,131 @@
+//go:build verif
+// +build verif
+
+// Verification-only construction of a partial Downloader around the real trie-sync network loop (runTrieSync ->
+// trieSync.loop / assignTasks / fillTasks / process, the per-request timers and the peer-drop handling) for property
+// C19 of /verif: the real peer set and peer connections, scripted remote peers, the request TTL scaled down through
+// the round-trip estimate.  Nothing in here is compiled into a normal build.
+
+package downloader
+
+import (
+	"sync"
+	"sync/atomic"
+	"time"
+
+	"github.com/youchainhq/go-youchain/core/types"
+	"github.com/youchainhq/go-youchain/trie"
+	"github.com/youchainhq/go-youchain/youdb"
+)
+
+// VerifTrieLoop is a Downloader with just the parts runTrieSync touches.
+type VerifTrieLoop struct {
+	d       *Downloader
+	mu      sync.Mutex
+	dropped []string
+	onDrop  func(id string)
+}
+
+// NewVerifTrieLoop builds the partial Downloader; rtt is the round trip estimate (the request TTL is three times that).
+// onDrop is called (outside any lock of the loop) whenever the loop drops a peer for stalling.
+func NewVerifTrieLoop(rtt time.Duration, onDrop func(id string)) *VerifTrieLoop {
+	l := &VerifTrieLoop{onDrop: onDrop}
+	d := &Downloader{
+		peers:         newPeerSet(),
+		trieCh:        make(chan dataPack),
+		trieSyncStart: make(chan *trieSync),
+		trackTrieReq:  make(chan *trieReq),
+		cancelCh:      make(chan struct{}),
+		quitCh:        make(chan struct{}),
+		rttEstimate:   uint64(rtt),
+		rttConfidence: 1000000,
+	}
+	d.dropPeer = func(id string) {
+		l.mu.Lock()
+		l.dropped = append(l.dropped, id)
+		l.mu.Unlock()
+		d.UnregisterPeer(id) // what ProtocolManager.removePeer does for the downloader
+		if l.onDrop != nil {
+			l.onDrop(id)
+		}
+	}
+	l.d = d
+	return l
+}
+
+// RegisterPeer is Downloader.RegisterPeer; the RTT estimate is pinned again afterwards (registration lowers the confidence).
+func (l *VerifTrieLoop) RegisterPeer(id string, p Peer) error {
+	rtt := atomic.LoadUint64(&l.d.rttEstimate)
+	err := l.d.RegisterPeer(id, p)
+	atomic.StoreUint64(&l.d.rttEstimate, rtt)
+	atomic.StoreUint64(&l.d.rttConfidence, 1000000)
+	return err
+}
+
+// UnregisterPeer is Downloader.UnregisterPeer (the peer went away).
+func (l *VerifTrieLoop) UnregisterPeer(id string) error { return l.d.UnregisterPeer(id) }
+
+// DeliverNodeData is Downloader.DeliverNodeData (the protocol handler's entry point).
+func (l *VerifTrieLoop) DeliverNodeData(id string, data [][]byte) error {
+	return l.d.DeliverNodeData(id, data)
+}
+
+// VerifTrieRun is one running trie sync.
+type VerifTrieRun struct {
+	s    *trieSync
+	done chan struct{}
+}
+
+// Prepare builds the per-sync object for a scheduler on a backing database (what syncState / commonSyncTrie do).
+func (l *VerifTrieLoop) Prepare(kind types.TrieKind, db youdb.Database, sched *trie.Sync) *VerifTrieRun {
+	return &VerifTrieRun{s: newTrieSync(l.d, kind, db, sched), done: make(chan struct{})}
+}
+
+// Start runs the real runTrieSync on it (what trieFetcher does with a task it receives) and returns at once.
+func (l *VerifTrieLoop) Start(r *VerifTrieRun) {
+	go func() {
+		l.d.runTrieSync(r.s)
+		close(r.done)
+	}()
+}
+
+// Close releases deliveries that arrive after the sync has ended (in a node trieFetcher swallows them).
+func (l *VerifTrieLoop) Close() {
+	l.d.cancelLock.Lock()
+	defer l.d.cancelLock.Unlock()
+	select {
+	case <-l.d.cancelCh:
+	default:
+		close(l.d.cancelCh)
+	}
+}
+
+// Done is closed when runTrieSync has returned.
+func (r *VerifTrieRun) Done() <-chan struct{} { return r.done }
+
+// Err classifies the result of the sync (valid after Done).
+func (r *VerifTrieRun) Err() string {
+	switch err := r.s.err; err {
+	case nil:
+		return "nil"
+	case errCancelTrieFetch:
+		return "cancelled"
+	case errCanceled:
+		return "cancelled"
+	default:
+		return "failed: " + err.Error()
+	}
+}
+
+// Cancel is trieSync.Cancel.
+func (r *VerifTrieRun) Cancel() { r.s.Cancel() }
+
+// Pending is the scheduler's Pending() (valid after Done).
+func (r *VerifTrieRun) Pending() int { return r.s.sched.Pending() }
+
+// Dropped lists the peers dropPeer was called for.
+func (l *VerifTrieLoop) Dropped() []string {
+	l.mu.Lock()
+	defer l.mu.Unlock()
+	return append([]string{}, l.dropped...)
+}
